@@ -63,7 +63,17 @@ MANIFEST = dict(
          "exclusion matcher, two-sided comparison of verdict and output with the Lean models run on the same decoder tables; "
          "bzip2 gate on faults in every block-header CRC and the stream CRC of single- and multi-block streams) and a direct oracle "
          "that loads every faulted archive by path and compares xmp_module_info.md5 with the packed payload's MD5. A regression "
-         "corpus of minimised single-fault cases (corpus/C09, tools/c09_corpus.py) runs first.",
+         "corpus of minimised single-fault cases (corpus/C09, tools/c09_corpus.py) runs first. Third wave: no loophole at "
+         "boundary check values -- C09_gates_exact (every gate test holds IFF stored = check(output), for every stored value incl. "
+         "0 and all-ones; ArcFS's format rule `stored CRC 0 = not recorded` is the single, explicit exception), "
+         "C09_bzip2_single_block_exact, C09_arc_zero_crc_is_checked; payloads engineered (last 2/4 sample bytes solved over GF(2)) "
+         "so that their CRC-16 / CRC-32 / bzip2 CRC is 0x0000/0xFFFF resp. 0x00000000/0xFFFFFFFF go through the gate "
+         "correspondence and the oracle sweep in every format comparing that code; member selection -- "
+         "C09_zip_member_selection / C09_zip_selected_member_failure (the first supported non-excluded central-directory record "
+         "decides: its stat/extraction verdict is zipDepack's verdict whatever members follow), C09_member_selection_final (ARC, "
+         "ArcFS, LZX: once the entry loop reaches an entry it extracts, the loop's result is that entry's verdict); archives with "
+         "2-3 loadable modules plus non-module members (zip, zip with data descriptors, ARC, ArcFS, LZX) are in the gate "
+         "correspondence and in the oracle with the rule `fails or loads the payload of the intact archive`.",
     note="Partial by nature: the entropy decoders (inflate, bzip2 BWT/Huffman, LZMA2, ARC LZW/Huffman, LZX) are parameters, not "
          "verified. RESIDUAL CLASS OUTSIDE THE THEOREMS: damage that a decoder spreads over more than one <=32/16-bit burst and whose "
          "check collides (2^-32 / 2^-16 per case) cannot be excluded by any proof; the oracle classifies an accepted different "
@@ -82,8 +92,13 @@ MANIFEST = dict(
          "from its computed value); a flipped Block Header Size byte changes the region the header CRC covers and is outside the "
          "burst theorem (covered by the oracle and the two-sided correspondence). Check types none/CRC64/SHA-256 carry no "
          "implemented check: modelled (Check field skipped) and tied, outside the property and the oracle. The old field-level "
-         "xzAccept and ZipStat-level zipExtract models and their theorems are kept. Archives with several loadable members (repo "
-         "lzxmerge) are outside the oracle: damage to one entry legitimately selects the next, intact and checked, member. "
+         "xzAccept and ZipStat-level zipExtract models and their theorems are kept. Multi-member archives: damage to a member's "
+         "SELECTION metadata (method / flags / name / LZX entry header CRC / ArcFS offsets) legitimately makes the depacker skip it "
+         "and load the next, intact and checked, member; the oracle accepts another member's payload only when the gate model "
+         "(code as it is) run on the same case with the recorded decoder tables yields exactly that output "
+         "(`reselected-member`, counted), anything else is a violation (the repo's lzxmerge stays correspondence-only). LHA is "
+         "outside the property: decrunch_lha/lhasa accumulate the data CRC-16 (lha_decoder.c) but nothing compares it (no "
+         "lha_reader_check), only header checksums are verified -- there is no implemented data check to state a gate for. "
          "Correspondence is sampled, not exhaustive.",
     technique="Lean 4: decide+kernel over generated tables, induction, BitVec LFSR invariant for burst detection, gate lemmas for "
               "arbitrary decoder (byte-level container parsers with fuelled loops); differential correspondence with link-level "
@@ -105,7 +120,10 @@ REQUIRED = [NS + n for n in (
     "C09_reject_xz_stream_flags",
     # zip: the whole miniz reader
     "C09_gate_zip_archive", "C09_reject_zip_archive", "C09_reject_zip_archive_field", "C09_gate_zip_eocd",
-    "C09_xz_index_matches_blocks")]
+    "C09_xz_index_matches_blocks",
+    # third wave: no loophole at boundary check values; member selection
+    "C09_gates_exact", "C09_bzip2_single_block_exact", "C09_arc_zero_crc_is_checked", "C09_zip_member_selection",
+    "C09_zip_selected_member_failure", "C09_member_selection_final")]
 
 WRAPS = ["-Wl,--wrap=libxmp_tinfl_decompress_mem_to_heap", "-Wl,--wrap=libxmp_arc_unpack", "-Wl,--wrap=lzx_unpack",
          "-Wl,--wrap=libxmp_exclude_match", "-Wl,--wrap=xz_dec_lzma2_run", "-Wl,--wrap=xz_dec_lzma2_reset",
@@ -303,7 +321,7 @@ def gate_cases(ck, arch, quick):
     faults = [("none",)]
     for name, (off, ln) in sorted(arch["fields"].items()):
         for o in range(off, min(off + ln, n)):
-            bits = range(8) if (name in ALLBITS or re.sub(r"\d+(_head)?$", "", name) in ALLBITS) else [rng.randrange(8)]
+            bits = range(8) if (name in ALLBITS or re.sub(r"\d+(_head|_tail)?$", "", name) in ALLBITS) else [rng.randrange(8)]
             for b in bits:
                 faults.append(("flip", o, b))
     k = 40 if quick else 300
@@ -316,7 +334,7 @@ def gate_cases(ck, arch, quick):
     for t in range(1, 10):
         faults.append(("trunc", n - t))
     cap = 140 if quick else 500
-    if arch["fmt"] in ("xz", "zip"):
+    if arch["fmt"] in ("xz", "zip") or arch.get("members"):
         cap = 420 if quick else 2500
     if len(faults) > cap:
         head, tail = faults[:1], faults[1:]
@@ -407,6 +425,29 @@ def gate_correspondence(ck, orc, archives, quick, jobs=None, label="gate_corresp
             return stats
     ck.note(label, stats)
     return stats
+
+
+def gate_eval(ck, orc, a, faults):
+    """[(real, model)] for the given faults of one archive: the real depacker under the spies and the Lean gate
+    model run with the recorded decoder tables (model None when the Lean side is not available)"""
+    exe = vlib.build_harness("c09_gates", ["c09_gates.c"], extra=WRAPS)
+    d = tempfile.mkdtemp(prefix="e", dir=orc.work)
+    cf = os.path.join(d, "cases.txt")
+    with open(cf, "w") as f:
+        for x in faults:
+            f.write("%s %s\n" % (HARNESS_FMT.get(a["fmt"], a["fmt"]), A.apply_fault(a["data"], x).hex() or "-"))
+    rc, out, err = vlib.run_exe(exe, [d, cf], timeout=1800)
+    shutil.rmtree(d, ignore_errors=True)
+    if rc != 0:
+        return [(None, None)] * len(faults)
+    lines = out.decode("latin-1").splitlines()
+    reals = [l[5:] for l in lines if l.startswith("real ")]
+    model = [None] * len(reals)
+    if ck.lean_ok:
+        model = vlib.run_driver("drv_c09", "\n".join(l for l in lines if not l.startswith("real ")) + "\n", timeout=1800)
+    if len(reals) != len(faults) or len(model) != len(faults):
+        return [(None, None)] * len(faults)
+    return list(zip(reals, model))
 
 
 def parse_zip_member(b):
@@ -674,6 +715,12 @@ def build_archives(ck, orc, quick):
         for a in A.xz_gate_only(rng, p):
             a["pname"] = pname
             seeds.append(a)
+    # boundary check values: payloads whose CRC-16 / CRC-32 / bzip2 CRC is 0 resp. all ones, in every format comparing it
+    for a in A.boundary_archives(rng):
+        (archives if a.get("oracle", True) else seeds).append(a)
+    # several loadable members (+ non-module members): a failure in the selected member must fail the load
+    tiny3 = [A.synth_mod(rng, tiny=True) for _ in range(3)]
+    archives.extend(A.multi_member_archives(rng, tiny3))
     # one multi-block bzip2 stream (>= 3 blocks at level 1) for the stream-CRC combination rule
     big = A.synth_mod_big(rng)
     a = A.make_bz2_multi(rng, big)
@@ -698,10 +745,11 @@ def oracle(ck, orc, archives, quick):
             jobs.append((a, [("none",)] + body[i:i + step]))
     ck.note("oracle_jobs", len(jobs))
     st_key = {id(a): hashlib.md5(a["data"]).hexdigest()[:12] for a in archives}
+    suspects = {}      # archives with several loadable members: accepted payload = another member's
     results = vlib.pmap(lambda j: orc.run_faults(j[0], j[1]), jobs)
     for (a, fl), (res, crashes) in zip(jobs, results):
         st = stats.setdefault(a["fmt"], {"archives": set(), "faults": 0, "rejected": 0, "identical": 0, "residual": 0,
-                                         "violations": 0, "flip": 0, "sub": 0, "trunc": 0})
+                                         "reselected": 0, "violations": 0, "flip": 0, "sub": 0, "trunc": 0})
         st["archives"].add(hashlib.md5(a["data"]).hexdigest())
         base = res.get(0)
         want = A.md5hex(a["payload"]) if a["payload"] is not None else (base[1] if base else None)
@@ -731,6 +779,11 @@ def oracle(ck, orc, archives, quick):
                 st["rejected"] += 1
             elif md5 == want:
                 st["identical"] += 1
+            elif md5 in a.get("members", ()) and a["fmt"] in GATE_FMTS:
+                # another member's intact payload was loaded: legitimate only if the damaged *selection metadata* (method,
+                # flags, name, entry header CRC ...) makes the depacker skip the first member -- decided below by the
+                # gate model (code as it is, member-selection theorems) on exactly this case
+                suspects.setdefault(id(a), (a, want, []))[2].append((x, rc, md5))
             else:
                 kind, why = classify(orc, a, x, a["payload"] if a["payload"] is not None else orc.unpack(a["name"], a["data"])[1])
                 if kind in ("residual-crc16-collision", "unchecked-by-design"):
@@ -744,6 +797,25 @@ def oracle(ck, orc, archives, quick):
                     ck.violation(sig, replay_obj(a, x, want, (rc, md5)),
                                  "%s archive (%s, payload %s) with fault %s loads successfully with a DIFFERENT payload: md5 %s "
                                  "instead of %s (%s)" % (a["fmt"], a["variant"], a.get("pname"), x, md5, want, why))
+    for a, want, lst in suspects.values():
+        st = stats[a["fmt"]]
+        ev = gate_eval(ck, orc, a, [x for x, _, _ in lst])
+        for (x, rc, md5), (real, model) in zip(lst, ev):
+            ok = (real is not None and real == model and real.startswith("some ")
+                  and hashlib.md5(bytes.fromhex(real[5:]) if real[5:] != "-" else b"").hexdigest() == md5)
+            if ok:
+                st["reselected"] += 1
+                ck.bump("oracle_member_reselected_by_damaged_metadata")
+                if st["reselected"] <= 3:
+                    ck.sample({"residual": "reselected-member", "fmt": a["fmt"], "variant": a["variant"], "fault": list(x),
+                               "region": region_of(a, x)})
+            else:
+                st["violations"] += 1
+                ck.violation("silent:%s:%s" % (a["fmt"], region_of(a, x)), replay_obj(a, x, want, (rc, md5)),
+                             "%s archive with several loadable members (%s) and fault %s loads ANOTHER member's payload (md5 %s "
+                             "instead of %s) although the gate model (member selection as in the code + selected member must "
+                             "pass its check) refuses / differs: real=%s model=%s" % (
+                                 a["fmt"], a["variant"], x, md5, want, str(real)[:40], str(model)[:40]))
     for st in stats.values():
         st["archives"] = len(st["archives"])
     ck.note("oracle", stats)
